@@ -72,6 +72,17 @@ impl TimeZone {
             None
         };
 
+        // Lookups index into the local time types
+        if transitions
+            .iter()
+            .any(|transition| transition.local_time_type_index >= local_time_types.len())
+            || (local_time_types.is_empty() && extra_rule.is_none())
+        {
+            return Err(TimeZoneError::InvalidTzFile(
+                "A local time type which does not exist is referenced",
+            ));
+        }
+
         Ok(Self {
             transitions,
             local_time_types,
